@@ -33,6 +33,17 @@ class Peer:
                 if not ready:
                     continue
                 used.add(p["pipeline_id"])
+                if self.multi and self.rng.random() < 0.25:
+                    # admissible but unusual: one container for the ready operators of two different pipelines
+                    other = next((q for q in pipes if q["pipeline_id"] not in used and not q["is_complete"] and not q["has_failures"]
+                                  and any(o["is_assignable_state"] and o["parents_complete"] for o in q["operators"])), None)
+                    if other is not None:
+                        used.add(other["pipeline_id"])
+                        o2 = next(o for o in other["operators"] if o["is_assignable_state"] and o["parents_complete"])
+                        asg.append({"operator_ids": [ready[0]["id"], o2["id"]], "cpu": pool["avail_cpu"], "ram_gb": pool["avail_ram_gb"],
+                                    "priority": p["priority"], "pool_id": pool["pool_id"], "is_resume": False, "force_run": False})
+                        self.mixed = getattr(self, "mixed", 0) + 1
+                        break
                 chosen = [o["id"] for o in p["operators"] if o["is_assignable_state"]] if self.multi and len(ready) == 1 and \
                     all(o["is_assignable_state"] or o["state"] == "completed" for o in p["operators"]) else [ready[0]["id"]]
                 asg.append({"operator_ids": chosen, "cpu": pool["avail_cpu"], "ram_gb": pool["avail_ram_gb"], "priority": p["priority"],
@@ -222,6 +233,7 @@ def one_run(ctx, drv, rng):
         return viol(ctx, "transparency", f"HTTP-driven run and in-process replay of the same decisions differ: {stats.to_dict()} vs {stats2.to_dict()}", case)
     nsus = sum(len(r["suspensions"]) for _, r, _ in peer.calls)
     ctx.sit("suspensions_issued_by_peer", nsus)
+    ctx.sit("containers_mixing_two_pipelines", getattr(peer, "mixed", 0))
     ctx.sit("assignments_issued_by_peer", sum(len(r["assignments"]) for _, r, _ in peer.calls))
     ctx.sit("pipelines_reported_complete", sum(1 for c in got for _, f in c["other"] if f))
     ctx.coverage["distinct_nontrivial"] += 1 if stats.assignments > 0 else 0
